@@ -532,3 +532,28 @@ Proof.
   destruct (run_before decf' vs raw j); cbn [obind]; try reflexivity.
   destruct fs as [fl|]; [rewrite (plain_fields_ext decf decf') by exact H; reflexivity|]. rewrite H. reflexivity.
 Qed.
+
+(* ------------------------------------------------------------------ references are transparent at run time (C10) *)
+Lemma dec_ref_transparent fmt_ok env f d u j : lookup d env = Some u -> Exec.dec fmt_ok env (S f) (TRef d) j = Exec.dec fmt_ok env f u j.
+Proof. intros H. cbn [Exec.dec]. rewrite H. reflexivity. Qed.
+
+(* ------------------------------------------------------------------ anyOf is disjunction over the branch types (C11) *)
+Lemma existsb_map_false {A B} (f : A -> B) (p : B -> bool) (l : list A) : (forall x, In x l -> p (f x) = false) -> existsb p (map f l) = false.
+Proof.
+  induction l as [|a r IH]; intros H; cbn; [reflexivity|]. rewrite (H a (or_introl eq_refl)). cbn. apply IH. intros x Hx. apply H. right; exact Hx.
+Qed.
+
+Lemma existsb_map' {A B} (f : A -> B) (p : B -> bool) (l : list A) : existsb p (map f l) = existsb (fun x => p (f x)) l.
+Proof. induction l as [|a r IH]; cbn; [reflexivity|]. rewrite IH. reflexivity. Qed.
+
+Lemma anyof_step decf raw j branches :
+  (forall bt, In bt branches -> decf bt j <> Crash /\ decf bt j <> NoFuel) ->
+  before_step decf raw j (VAnyOf branches) = if existsb (fun bt => is_ok (decf bt j)) branches then Ok tt else Err.
+Proof.
+  intros H. cbn [before_step].
+  rewrite (existsb_map_false (fun bt => decf bt j) (fun r => match r with Crash => true | _ => false end)).
+  2: { intros x Hx. destruct (H x Hx) as [Hc _]. destruct (decf x j); try reflexivity. congruence. }
+  rewrite (existsb_map_false (fun bt => decf bt j) (fun r => match r with NoFuel => true | _ => false end)).
+  2: { intros x Hx. destruct (H x Hx) as [_ Hn]. destruct (decf x j); try reflexivity. congruence. }
+  rewrite existsb_map'. unfold is_ok. destruct (existsb _ branches); reflexivity.
+Qed.
